@@ -220,6 +220,7 @@ class AsyncRun:
                 "closed": bool(c.is_closed()),
                 "pooled": pooled,
                 "handles": [i for i, o in enumerate(self.origins) if c.can_handle_request(o)],
+                "xc": self.exchange_clean(c),
             }
         except Exception as e:  # an inspection method that raises is itself worth recording
             d = {"id": self.cid(c), "kind": type(c).__name__, "state": "INSPECT-ERROR:" + type(e).__name__, "pooled": pooled}
@@ -267,6 +268,30 @@ class AsyncRun:
                 content = call.content
                 if callable(content):
                     content = content()
+                if isinstance(content, tuple) and content and content[0] == "gated":
+                    gparts = list(content[1])
+
+                    async def ggen(gparts=gparts, name=name):
+                        for i, p in enumerate(gparts):
+                            if i:
+                                fut = self.loop.create_future()
+                                self.gates.setdefault(name, {})["body"] = fut
+                                self.waiting_gate[name] = "body"
+                                try:
+                                    await fut
+                                finally:
+                                    self.waiting_gate.pop(name, None)
+                            yield p
+
+                    content = ggen()
+                elif isinstance(content, (list, tuple)):
+                    parts = list(content)
+
+                    async def agen(parts=parts):
+                        for p in parts:
+                            yield p
+
+                    content = agen()
                 req = httpcore.Request(call.method, call.url, headers=headers, content=content, extensions=ext)
                 self.phase[name] = "calling"
                 self.event("Call", r=name)
@@ -300,7 +325,9 @@ class AsyncRun:
                                     break
                                 body += chunk
                                 out["body"] = body
-                    self.event("BodyEnd", r=name, n=len(body), complete=bool(out.get("complete")))
+                    exp = b"body-of-" + call.tok.encode()
+                    big = (exp + b"|") * 6
+                    self.event("BodyEnd", r=name, n=len(body), complete=bool(out.get("complete")), bodyok=(exp.startswith(body) or big.startswith(body)) and (not out.get("complete") or body in (exp, big)))
                     await self._gate(name, "close")
                 finally:
                     self.phase[name] = "closing"
@@ -322,7 +349,7 @@ class AsyncRun:
         finally:
             if self.record:
                 self.phase[name] = "ended"
-            self.event("Return", r=name, out=out["result"], exc=out.get("exc", ""))
+            self.event("Return", r=name, out=out["result"], exc=out.get("exc", ""), nsent=len(self.streams_with_token(call.tok)))
 
     def start(self, name):
         t = self.loop.create_task(self._caller(name), name=name)
@@ -346,6 +373,22 @@ class AsyncRun:
         if t is not None:
             en.append(("tick", t))
         return en
+
+    def exchange_clean(self, conn):
+        """C01 reuse gate, read off the simulated network: on every open stream this connection
+        owns, the peer has received each request completely, has answered each of them, nothing
+        it sent is still unread, and it has not announced that it will close."""
+        for rec in self.net.streams:
+            if rec.owner is conn and rec.open:
+                peer = rec.peer
+                while getattr(peer, "inner", None) is not None:
+                    peer = peer.inner
+                if hasattr(peer, "exchange_clean"):
+                    if not peer.exchange_clean() or rec.inbuf:
+                        return False
+                    if getattr(peer, "closed", False):
+                        return False
+        return True
 
     def streams_with_token(self, tok):
         """Streams on which a peer has seen a request head carrying this caller's token."""
